@@ -32,7 +32,7 @@ pub struct Chan<const BUFFER_SIZE: usize, const MAX_STREAMS: usize> {
     pub eff: Ghost<Seq<nat>>,
     pub queues_resume: Ghost<Seq<Seq<u64>>>,
     pub suspensions: Ghost<nat>,
-}
+/*EXTRA_ATOMIC_FIELDS*/}
 impl<const BUFFER_SIZE: usize, const MAX_STREAMS: usize> Chan<BUFFER_SIZE, MAX_STREAMS> {
     pub open spec fn wf(&self) -> bool {
         &&& 1 <= MAX_STREAMS <= 0x7fff_ffff && 2 <= BUFFER_SIZE <= 0x4000_0000
@@ -49,6 +49,19 @@ impl<const BUFFER_SIZE: usize, const MAX_STREAMS: usize> Chan<BUFFER_SIZE, MAX_S
     pub open spec fn unchanged(&self, o: &Self) -> bool { self.same_but_queues(o) && self.queues == o.queues && self.eff == o.eff }
     /// what a suspended send_with_async holds that makes others WAIT: nothing (a reserved pool slot consumes capacity only)
     pub open spec fn blocking_held(&self) -> int { 0 }
+
+    /// the longest queue among the live listeners (0 without listeners): what the iterator chain of pending_items_count() computes over the live list
+    pub open spec fn is_longest(&self, r: int) -> bool {
+        &&& forall|j: int| self.live@.contains(j) ==> (#[trigger] self.queues@[j]).len() <= r
+        &&& (r == 0 || exists|j: int| self.live@.contains(j) && (#[trigger] self.queues@[j]).len() == r)
+    }
+    /// `used_streams().iter().take_while(|id| id != u32::MAX).map(|id| queue[id].len()).max().unwrap_or(0)` (R19; the live list IS the live set up to the first
+    /// sentinel: Inv_SM, units streams_bookkeeping); bounded by the listener queues' capacity
+    #[verifier::external_body]
+    pub fn longest_live_queue(&self) -> (r: usize)
+        requires self.wf(),
+        ensures self.is_longest(r as int), r <= BUFFER_SIZE,
+    { unimplemented!() }
 
     /// `OgreArc::new(&self.allocator)`: allocates a pool slot and wraps it (reference count 1); None <=> the pool is exhausted
     #[verifier::external_body]
@@ -150,6 +163,49 @@ R_WRITE = Rule("R7-write", r"unsafe \{ std::ptr::write\(slot, item\) \}", "self.
 COMMON = [R_RETRY, R_NEW, R_FROM, R_ALLOC, R_DISCARD, R_WRITE]
 
 
+KNOWN_FIELDS = {"streams_manager", "dispatcher_managers", "allocator", "channels", "senders", "receivers", "_phanrom", "_phantom"}
+
+
+def spec_with_real_atomics(spec, file, struct):
+    """the channel struct's ATOMIC fields the contract does not know (none on the unchanged tree) are added to the verified struct as plain atomic cells
+    with an unconstrained value -- whatever other threads made of them (A-model reading): an entry point whose answer depends on such a cell fails its
+    postcondition instead of failing to type-check"""
+    def build(repo):
+        import os
+        from engine.common import read
+        path = os.path.join(repo, file)
+        if not os.path.exists(path):
+            raise Undecided(f"{file} not found")
+        fields = lx.struct_fields(read(path), struct)
+        if fields is None:
+            raise Undecided(f"{file}: struct {struct} not found")
+        extra = ""
+        for name, ty in fields:
+            mt = re.fullmatch(r"(?:std::sync::atomic::)?(AtomicU32|AtomicU64|AtomicUsize|AtomicBool)", ty)
+            if mt and name not in KNOWN_FIELDS:
+                extra += f"    pub {name}: {mt.group(1)},\n"
+        return spec.replace("/*EXTRA_ATOMIC_FIELDS*/", extra)
+    return build
+
+
+LONGEST_CHAIN = Rule("R19-longest-live-queue",
+                     r"self\.streams_manager\.used_streams\(\)\.iter\(\)\s*\.take_while\(\|&&stream_id\| stream_id != u32::MAX\)\s*"
+                     r"\.map\(\|&stream_id\| unsafe \{ self\.(?:channels|dispatcher_managers|receivers)\.get_unchecked\(stream_id as usize\) \}\.(?:available_elements_count|len)\(\)\)\s*"
+                     r"\.max\(\)\.unwrap_or\(0\)", "self.longest_live_queue()", count=1,
+                     note="the iterator chain over the live list (take_while not sentinel / map queue length / max / unwrap_or 0) -> longest_live_queue (Verus has no iterator adapters)")
+
+
+def pending_fn(file, struct):
+    impl_common = r"ChannelCommon\s*<[^{]*?>\s*for\s+%s\s*<[^{]*(?=\{)" % struct
+    # C06 / C20: what flush / close poll is determined by the listener queues ALONE (whatever else is going on -- e.g. a suspended send_with_async -- must
+    # not make a flush wait): the longest live listener queue
+    f = FnSpec(file, "pending_items_count", impl=impl_common, props=["C06", "C20", "C03"],
+               sig="pub fn pending_items_count(&self) -> (r: u32)", sig_anchor=r"fn pending_items_count\(&self\) -> u32",
+               rules=[LONGEST_CHAIN], requires="self.wf()", ensures="self.is_longest(r as int)")
+    f.container = "impl<const BUFFER_SIZE: usize, const MAX_STREAMS: usize> Chan<BUFFER_SIZE, MAX_STREAMS>"
+    return f
+
+
 def unit(kind, file, struct):
     impl_p = r"ChannelProducer\s*<[^{]*?>\s*for\s+%s\s*<[^{]*(?=\{)" % struct
     impl_c = r"ChannelConsumer\s*<[^{]*?>\s*for\s+%s\s*<[^{]*(?=\{)" % struct
@@ -207,7 +263,8 @@ def unit(kind, file, struct):
                    "old(self).queues@[stream_id as int].len() > 0 ==> r == Some(old(self).queues@[stream_id as int][0]) && final(self).queues@[stream_id as int] == old(self).queues@[stream_id as int].drop_first(),"
                    "old(self).queues@[stream_id as int].len() == 0 ==> r is None && final(self).queues@[stream_id as int] == old(self).queues@[stream_id as int]"),
     ]
-    return Unit("multi_ogre_arc_" + kind, fns, spec=SPEC,
+    fns.append(pending_fn(file, struct))
+    return Unit("multi_ogre_arc_" + kind, fns, spec=spec_with_real_atomics(SPEC, file, struct),
                 trusted=["send_derived: its contract is what units fanout_ogre_arc_%s prove of its body (+ Kani multi_ogre_arc_%s, thorough tier)" % (kind, kind),
                          "ogre_arc_new / alloc_ref / dealloc_ref / id_from_ref: the allocator's contract (unit pool_allocator, Kani pool harnesses) and OgreArc::new / from_allocated (Kani ogre_arc)",
                          "consume_from: the listener ring's consume_movable contract (ring units + Kani)"],
@@ -243,7 +300,7 @@ pub struct Chan<const BUFFER_SIZE: usize, const MAX_STREAMS: usize> {
     pub cancels: Ghost<Seq<int>>,
     pub queues_resume: Ghost<Seq<Seq<u64>>>,
     pub suspensions: Ghost<nat>,
-}
+/*EXTRA_ATOMIC_FIELDS*/}
 impl<const BUFFER_SIZE: usize, const MAX_STREAMS: usize> Chan<BUFFER_SIZE, MAX_STREAMS> {
     pub open spec fn wf(&self) -> bool {
         &&& 1 <= MAX_STREAMS <= 0x7fff_ffff && 1 <= BUFFER_SIZE <= 0x4000_0000
@@ -255,6 +312,19 @@ impl<const BUFFER_SIZE: usize, const MAX_STREAMS: usize> Chan<BUFFER_SIZE, MAX_S
         &&& forall|j: int| 0 <= j < before.len() ==> (#[trigger] self.queues@[j]) == (if self.live@.contains(j) { before[j].push(v) } else { before[j] })
     }
     pub open spec fn blocking_held(&self) -> int { 0 }
+
+    /// the longest queue among the live listeners (0 without listeners): what the iterator chain of pending_items_count() computes over the live list
+    pub open spec fn is_longest(&self, r: int) -> bool {
+        &&& forall|j: int| self.live@.contains(j) ==> (#[trigger] self.queues@[j]).len() <= r
+        &&& (r == 0 || exists|j: int| self.live@.contains(j) && (#[trigger] self.queues@[j]).len() == r)
+    }
+    /// `used_streams().iter().take_while(|id| id != u32::MAX).map(|id| queue[id].len()).max().unwrap_or(0)` (R19; the live list IS the live set up to the first
+    /// sentinel: Inv_SM, units streams_bookkeeping); bounded by the listener queues' capacity
+    #[verifier::external_body]
+    pub fn longest_live_queue(&self) -> (r: usize)
+        requires self.wf(),
+        ensures self.is_longest(r as int), r <= BUFFER_SIZE,
+    { unimplemented!() }
     /// `self.send_derived(&arc_item)`: THE CONTRACT units fanout_arc_* prove of its body (given room in every live listener's queue -- otherwise the
     /// channel waits, which is excluded from C16 by the statement)
     #[verifier::external_body]
@@ -337,7 +407,8 @@ def unit_arc(kind, file, struct, consume_rule):
                    "old(self).queues@[stream_id as int].len() == 0 ==> r is None && final(self).queues@[stream_id as int] == old(self).queues@[stream_id as int],"
                    "final(self).cancels == old(self).cancels"),
     ]
-    return Unit("multi_arc_" + kind, fns, spec=SPEC_ARC,
+    fns.append(pending_fn(file, struct))
+    return Unit("multi_arc_" + kind, fns, spec=spec_with_real_atomics(SPEC_ARC, file, struct),
                 trusted=["send_derived: its contract is what unit fanout_arc_%s proves of its body" % kind,
                          "consume_from / try_recv_from: the listener queue's contract (ring units + Kani; crossbeam: ASSUMED bounded FIFO whose both ends the channel owns)"],
                 assumptions=["these channels WAIT while a listener queue is full (documented upstream; excluded from C16 by the statement): send_derived's contract is stated for 'every live listener queue has room'",
